@@ -401,8 +401,17 @@ impl Xot {
         if namespace == self.no_namespace() {
             return Ok(local_name.to_string());
         }
-        // look up the prefix for the namespace
-        if let Some(prefix) = self.prefix_for_namespace(node, namespace) {
+        // look up the prefix for the namespace; an attribute name without
+        // prefix is in no namespace, so the default namespace cannot be used
+        // for the name of an attribute node
+        let prefix = if self.is_attribute_node(node) {
+            self.namespaces_in_scope(node)
+                .find(|(prefix, ns)| *ns == namespace && *prefix != self.empty_prefix())
+                .map(|(prefix, _)| prefix)
+        } else {
+            self.prefix_for_namespace(node, namespace)
+        };
+        if let Some(prefix) = prefix {
             let prefix = self.prefix_str(prefix);
             if !prefix.is_empty() {
                 Ok(format!("{}:{}", prefix, local_name))
